@@ -530,6 +530,57 @@ def run(ck):
         not any(isinstance(h, ast.ExceptHandler) for h in ast.walk(sm)) and "' \\t\\n{}$\"'" in u(sm)
     ck.ob('PROV-macros', pu.loc(sm), ok, 'a "$name" (name ends at white space, a brace, a quote or the next "$") is replaced in place by the stored value; an undefined macro is a KeyError, '
           'not silently kept', key='PROV-macros|substitution')
+    # ------------------------------------------------------------- the small section parsers store exactly what the line declares
+    def stores(fn, target_text):
+        return [(st_, c_) for st_, c_, e_ in stmts_with_env(fn, lambda s_: (isinstance(s_, ast.Assign) and u(s_.targets[0]) == target_text) or
+                                                        (isinstance(s_, ast.Expr) and isinstance(s_.value, ast.Call) and u(s_.value.func) == target_text))]
+
+    def two_columns(fn):
+        rz = [c_ for st_, c_, e_ in raise_conditions(fn)]
+        lens = {a for c_ in rz for a in flow.atoms_of(c_) if a[0] in ('Gt', 'Lt') and 'len(tokens)' in a[1:] and '2' in a[1:]}
+        return len(lens) == 2      # more than two columns, fewer than two columns
+    ppat = ff.func('_parse_patterns')
+    st = stores(ppat, 'context.patterns.append')
+    ok = len(st) == 1 and u(st[0][0].value.args[0]) == 'atoms' and u(single_def(ppat, 'atoms')) == '_get_atoms(tokens, natoms=None)' and \
+        flow.equivalent(st[0][1], ('atom', ('Eq', "'link'", 'context_type')))[0] | flow.equivalent(st[0][1], ('atom', ('Eq', 'context_type', "'link'")))[0]
+    ck.analysed(ff, ppat)
+    ck.ob('PROV-sections', ff.loc(ppat), ok, 'a [ patterns ] line adds one pattern made of all atoms (with attributes) written on it, in links only', key='PROV-sections|patterns')
+    pfe = ff.func('_parse_features')
+    st = stores(pfe, 'context.features.update')
+    ok = len(st) == 1 and u(st[0][0].value.args[0]) in ('set(tokens)', 'tokens')
+    ck.analysed(ff, pfe)
+    ck.ob('PROV-sections', ff.loc(pfe), ok, 'a [ features ] line adds every token written on it to the link\'s features', key='PROV-sections|features')
+    pva = ff.func('_parse_variables')
+    st = stores(pva, 'force_field.variables[key]')
+    ok = len(st) == 1 and u(st[0][0].value) == 'value' and two_columns(pva) and 'key, value = tokens' in u(pva) and 'value = json.loads(value)' in u(pva)
+    ck.analysed(ff, pva)
+    ck.ob('PROV-sections', ff.loc(pva), ok, 'a [ variables ] line stores the JSON value (or the raw text) of its second column under its first; other column counts are errors', key='PROV-sections|variables')
+    pla = ff.func('_parse_link_attribute')
+    ck.analysed(ff, pla)
+    s1 = stores(pla, 'context._apply_to_all_nodes[key]')
+    s2 = stores(pla, 'context.molecule_meta[key]')
+    ok = len(s1) == 1 and len(s2) == 1 and u(s1[0][0].value) == 'value' == u(s2[0][0].value) and two_columns(pla) and \
+        any(a[0] == 'Eq' and set(a[1:]) == {"'link'", 'section'} for a in flow.atoms_of(s1[0][1])) and any(a[0] == 'Eq' and set(a[1:]) == {"'molmeta'", 'section'} for a in flow.atoms_of(s2[0][1]))
+    vals = sorted(u(v) for v in assignments_to(pla, 'value'))
+    ok = ok and vals == sorted(["Choice(json.loads(value).split('|'))", 'VALUE_PREDICATES[function](argument)', 'json.loads(value)'])
+    ck.ob('PROV-sections', ff.loc(pla), ok, 'a [ link ] attribute line sets that attribute for every atom of the link, a [ molmeta ] line sets a molecule-meta requirement; the value is '
+          'a choice ("a|b"), a predicate call or plain JSON', key='PROV-sections|link-attribute')
+    pci = ck.need(method(ffd, '_parse_citation'), 'FFDirector._parse_citation vanished')
+    ok = 'self.get_context(context_type).citations.update(cite_keys)' in u(pci) and u(single_def(pci, 'cite_keys')) == 'line.split()'
+    ck.ob('PROV-sections', ff.loc(pci), ok, 'a [ citation ] line adds every key written on it to the citations of the block / link / modification being read', key='PROV-sections|citation')
+    ple = ck.need(method(ffd, '_parse_log_entry'), 'FFDirector._parse_log_entry vanished')
+    ok = 'loglevel = logging.getLevelName(self.section[-1].upper())' in u(ple) and 'self.get_context(context_type).log_entries[loglevel][line] = []' in u(ple)
+    ck.ob('PROV-sections', ff.loc(ple), ok, 'a [ debug | info | warning | error ] line is stored as a message of that level on the object being read', key='PROV-sections|log-entry')
+    plk = ff.func('_parse_link_atom')
+    ck.analysed(ff, plk)
+    src = u(plk)
+    ok = two_columns(plk) and 'attributes = _parse_atom_attributes(tokens[1])' in src and 'attributes = dict(collections.ChainMap(attributes, context._apply_to_all_nodes))' in src and \
+        'full_attributes = dict(collections.ChainMap(attributes, node_attributes, defaults))' in src and 'context.add_node(prefixed_reference, **full_attributes)' in src and \
+        'context.nodes[prefixed_reference] = full_attributes' in src
+    rz = [c_ for st_, c_, e_ in raise_conditions(plk)]
+    conflict = [c_ for c_ in rz if any(a[0] == 'Eq' and any('.get(attr, value)' in x for x in a[1:]) and 'value' in a[1:] for a in flow.atoms_of(c_))]
+    ck.ob('PROV-sections', ff.loc(plk), ok and len(conflict) == 1, 'a link / modification [ atoms ] line defines the atom under its normalised key with its own attributes, then the link-wide ones, '
+          'then what an earlier line said, then the defaults; a contradiction with an earlier definition is an error', key='PROV-sections|link-atom')
     prefix_order_table(ck, ff)
     shared.truthy_zero(ck, [FF, ITP, PU, MAP, 'vermouth/map_input.py'])
     ck.assume('token-level grammar, macro substitution results and .map weight arithmetic are not decided')
